@@ -396,8 +396,21 @@ def rule_sel_axis(repo, tier):
             if found[0] != '-1':
                 res.add(Finding('C09.AXIS', f, '%s reduces the squared residual over axis %s; the loss and both correctors must agree on the last axis' % (q, found[0]),
                                 construct='axis ' + found[0]))
-    # selection in RobustModel.loss
+    # the kernel is applied PER RESIDUAL ROW: its argument is the squared norm over the last axis itself, and the sum over rows is taken of the kernel's
+    # output - rho(sum_i |r_i|^2) is another function than sum_i rho(|r_i|^2) for every non-linear kernel
     f = repo.func(OPT, 'RobustModel.loss')
+    for c in ast.walk(f.node):
+        if isinstance(c, (ast.ListComp, ast.GeneratorExp)):
+            for a in ast.walk(c.elt):
+                if isinstance(a, ast.Call) and a.args and ((isinstance(a.func, ast.Name) and any(isinstance(g.target, ast.Tuple) and any(isinstance(t_, ast.Name) and t_.id == a.func.id
+                                                                                                         for t_ in g.target.elts) for g in c.generators)) or
+                                                            (isinstance(a.func, ast.Subscript) and dotted(a.func.value) == 'self.kernel')):
+                    okarg = _sq_axis(a.args[0]) is not None
+                    res.inst({'function': f.fq, 'kernel application': src(a)[:60], 'argument is the per-row squared norm': okarg}, ('karg', src(a)[:70]))
+                    if not okarg:
+                        res.add(Finding('C09.AXIS', f, 'the kernel is applied to `%s`, not to the squared norm of each residual row: rho of the TOTAL squared error is reported '
+                                        'instead of the sum of rho over the rows' % src(a.args[0])[:50], node=a, construct='kernel argument|' + src(a.args[0])[:40]))
+    # selection in RobustModel.loss
     pths, _ = paths.function_paths(f.node, limit=256)
     ok_multi = ok_single = False
     for ev, ex in pths:
